@@ -62,6 +62,46 @@ def build_lib(flavour):
     return d, True
 
 
+WRAPPED = ["malloc", "mmap", "mremap", "munmap", "open", "fstat", "read", "fopen", "fwrite", "fclose"]
+# libc functions the library may call without going through an interposer (pure / diagnostics / release of resources)
+ALLOWED = {"free", "close", "fprintf", "printf", "puts", "putchar", "perror", "strncpy", "strlen", "strcmp", "strtoul", "strtok_r", "strstr", "strncmp",
+           "strchr", "strcasecmp", "__ctype_tolower_loc", "stderr", "stdout", "memset", "memcpy", "memmove", "strcpy", "tolower", "__errno_location", "fputs", "fputc", "__stack_chk_fail",
+           "memcmp", "strtol", "strncasecmp", "abort", "snprintf", "sprintf", "vfprintf", "strnlen", "__ctype_b_loc", "__ctype_toupper_loc", "toupper", "isdigit", "isalpha", "strtoull", "strtoll", "atoi"}
+
+
+def build_lib_fi():
+    """asan objects of the library with its libc resource calls redirected to the interposers of engine/fault/wrap.c"""
+    d0, changed = build_lib("asan")
+    d = os.path.join(BUILD, "asanfi")
+    os.makedirs(d, exist_ok=True)
+    stamp = os.path.join(d, "stamp")
+    dg = open(os.path.join(d0, "stamp")).read() + digest([os.path.join(ROOT, "engine", "fault", "wrap.c"), os.path.join(ROOT, "engine", "fault", "wrap.h")], ",".join(WRAPPED))
+    if os.path.exists(stamp) and open(stamp).read() == dg:
+        return d
+    for o in glob.glob(os.path.join(d, "*.o")):
+        os.unlink(o)
+    redef = " ".join("--redefine-sym %s=alw_%s" % (s, s) for s in WRAPPED)
+    defined = set()
+    objs = lib_objs("asan")
+    for o in objs:
+        for line in sh(f"nm --defined-only {o}").splitlines():
+            parts = line.split()
+            if len(parts) == 3:
+                defined.add(parts[2])
+    for o in objs:
+        sh(f"objcopy {redef} {o} {os.path.join(d, os.path.basename(o))}")
+        # every undefined symbol must be interposed, library-internal, a sanitizer hook or on the allow-list
+        for line in sh(f"nm -u {o}").splitlines():
+            sym = line.split()[-1]
+            if sym in defined or sym in WRAPPED or sym in ALLOWED or sym.startswith(("__asan", "__ubsan", "__sanitizer", "__sancov")):
+                continue
+            sys.stderr.write("BUILD FAILED: library object %s calls '%s', which is neither interposed for fault injection nor on the allow-list of pure functions (driver/build.py)\n" % (os.path.basename(o), sym))
+            raise SystemExit(2)
+    sh(f"clang -O1 -g {SAN} -c {os.path.join(ROOT, 'engine', 'fault', 'wrap.c')} -o {os.path.join(d, 'zz_wrap.o')}")
+    open(stamp, "w").write(dg)
+    return d
+
+
 def lib_objs(flavour):
     return sorted(glob.glob(os.path.join(BUILD, flavour, "*.o")))
 
@@ -97,12 +137,29 @@ def build_engine():
     return exe
 
 
+def build_engine_fi():
+    """the same engine linked against the fault-injectable library objects (used by C17 and C19)"""
+    build_engine()
+    d = build_lib_fi()
+    eng = os.path.join(ROOT, "engine")
+    odir = os.path.join(BUILD, "engine")
+    cpps = sorted(glob.glob(os.path.join(eng, "*.cpp")))
+    objs = [os.path.join(odir, os.path.basename(c)[:-4] + ".o") for c in cpps]
+    exe = os.path.join(BUILD, "alverif_fi")
+    libo = sorted(glob.glob(os.path.join(d, "*.o")))
+    newest = max(os.path.getmtime(x) for x in objs + libo)
+    if not os.path.exists(exe) or os.path.getmtime(exe) < newest:
+        sh(f"clang++ {SAN} -DALW_FI {' '.join(objs)} {' '.join(libo)} -lrapidcheck -lpthread -o {exe}")
+    return exe
+
+
 if __name__ == "__main__":
     t = time.time()
     what = sys.argv[1:] or ["engine"]
     for w in what:
         if w == "engine":
             print(build_engine())
+            print(build_engine_fi())
         else:
             print(build_lib(w))
     print("build %.1fs" % (time.time() - t))
